@@ -43,7 +43,7 @@ def key_of(row, part):
     name = row.get("name", "")
     sset = name.split(".")[-1] if name else ""
     if op == "gf2":
-        return "gf2%s:f=%s" % ("QSolve" if part >= 100000 else "Tr", ",".join(str(x) for x in row.get("f", [])))
+        return "gf2Tr/gf2QSolve:f=%s" % ",".join(str(x) for x in row.get("f", []))
     if part >= 10:
         alts = row.get("alts", [])
         a = alts[part - 11]["a"] if 0 < part - 10 <= len(alts) else "?"
@@ -73,7 +73,7 @@ def run_exec(ctx, drv, cmds, name, timeout=2400):
     """executes the commands; a command that stops the driver (assertion, sanitizer report, signal) is reported and skipped"""
     with open(ctx.path(name + ".cmds"), "w") as f:
         f.write("\n".join(cmds) + "\n")
-    rows, todo, crashes = [], list(cmds), 0
+    rows, todo, crashes, seen_crash = [], list(cmds), 0, set()
     while todo and crashes < 40:
         rc, out, err = vlib.run_harness(drv, ["exec"], stdin=("\n".join(todo) + "\n").encode(), env={"VERIF_SEED": ctx.seed}, timeout=timeout)
         got = []
@@ -88,9 +88,13 @@ def run_exec(ctx, drv, cmds, name, timeout=2400):
             break
         crashes += 1
         cmd = todo[len(got)] if len(got) < len(todo) else "?"
-        ctx.violation(crash_key(cmd, err, rc), "driver stopped in a library call (rc=%d) while executing: %s\n%s" % (rc, cmd[:400], (err or "")[-1200:]),
-                      {"cmd": cmd, "stderr": (err or "")[-3000:]})
+        ck = crash_key(cmd, err, rc)
         todo = todo[len(got) + 1:]
+        if ck in seen_crash:
+            continue
+        seen_crash.add(ck)
+        ctx.violation(ck, "driver stopped in a library call (rc=%d) while executing: %s\n%s" % (rc, cmd[:400], (err or "")[-1200:]),
+                      {"cmd": cmd, "stderr": (err or "")[-3000:]})
     return rows
 
 
@@ -213,7 +217,7 @@ def run(ctx):
     ev.cov["scenarios"] = len(rows)
     ev.cov["altered_verifications"] = nalts
     ev.cov["heavy_copies"] = len(lines) - len(rows)
-    ev.cov["gf2_elements"] = sum(len(x.get("tr", [])) for x in rows if x["op"] == "gf2")
+    ev.cov["gf2_elements"] = sum(len(x.get("els", [])) for x in rows if x["op"] == "gf2")
     ev.cov["evaluations"] = len(rows) + nalts + ev.cov["gf2_elements"] + ev.cov["heavy_copies"]
     ev.cov["distinct_nontrivial"] = len(distinct)
     ev.cov["lines_validated"] = n
@@ -245,7 +249,9 @@ def selftest(ctx, rows):
         elif op == "pfok":
             m["mti_b"][0] ^= 1
         else:
-            m["tr"][len(m["tr"]) // 2] ^= 1
+            if not m.get("els"):
+                continue
+            m["els"][len(m["els"]) // 2]["tr"] ^= 1
         mut.append(m)
         if op == "g12s":
             m2 = json.loads(json.dumps(cand[0])); m2["rcVerify"] = 510; mut.append(m2)
